@@ -55,6 +55,43 @@ fn gen_err(r: &mut Rng, pool: &SpanPool, counter: &mut usize, depth: usize) -> (
 
 struct Unwinder;
 
+thread_local! {
+    static UNWIND_MEMO: std::cell::RefCell<std::collections::HashMap<usize, Sx>> = std::cell::RefCell::new(Default::default());
+}
+
+/// child entry point: an accumulator holding `n` errors is dropped by an unrelated panic
+pub fn child_drop_during_unwind(n: usize) -> ! {
+    let res = catch_unwind(AssertUnwindSafe(move || {
+        let mut a = Error::accumulator();
+        for i in 0..n {
+            a.push(Error::custom(format!("e{}", i)));
+        }
+        let _keep = a;
+        std::panic::resume_unwind(Box::new("harness-unwind"));
+    }));
+    match res {
+        Err(p) if p.downcast_ref::<&str>() == Some(&"harness-unwind") => std::process::exit(0),
+        _ => std::process::exit(3),
+    }
+}
+
+fn unwind_drop_outcome(n: usize) -> Sx {
+    UNWIND_MEMO.with(|m| {
+        if let Some(v) = m.borrow().get(&n) {
+            return v.clone();
+        }
+        let exe = std::env::current_exe().unwrap();
+        let status = std::process::Command::new(exe)
+            .args(["c05-child", &n.to_string()])
+            .stderr(std::process::Stdio::null())
+            .status()
+            .unwrap();
+        let v = if status.code() == Some(0) { atom("quiet") } else { tagged("panic", vec![st("process aborted: panic inside drop while unwinding".to_string())]) };
+        m.borrow_mut().insert(n, v.clone());
+        v
+    })
+}
+
 pub fn gen_case(r: &mut Rng, pool: &SpanPool) -> (Sx, String, usize, &'static str) {
     let n_ops = r.below(16);
     let mut counter = 0usize;
@@ -194,24 +231,11 @@ pub fn gen_case(r: &mut Rng, pool: &SpanPool) -> (Sx, String, usize, &'static st
                             }
                         }
                     } else {
-                        // drop while another panic unwinds: if the bomb went off the process
-                        // would abort ("panicked while panicking"); surviving = quiet.
-                        let res = catch_unwind(AssertUnwindSafe(move || {
-                            let _a = a;
-                            let _u = Unwinder;
-                            std::panic::resume_unwind(Box::new("harness-unwind"));
-                        }));
-                        match res {
-                            Err(p) if p.downcast_ref::<&str>() == Some(&"harness-unwind") => atom("quiet"),
-                            Err(p) => {
-                                let msg = p
-                                    .downcast_ref::<String>()
-                                    .cloned()
-                                    .unwrap_or_else(|| "?".into());
-                                tagged("panic", vec![st(msg)])
-                            }
-                            Ok(()) => atom("quiet"),
-                        }
+                        // drop while another panic unwinds: a bomb that goes off aborts the
+                        // whole process, so the real drop runs in a child process (memoised by
+                        // the number of recorded errors, the only thing the destructor reads)
+                        let n = a.into_inner().len();
+                        unwind_drop_outcome(n)
                     }
                 }
             },
